@@ -52,6 +52,7 @@ class Env:
 
 
 ENV: Env | None = None
+RELEASE_YIELD = False     # True once Observer.v models the unlocked read of _last_item as a step of its own
 
 
 def who():
@@ -336,7 +337,7 @@ def run_program(prog, chooser, max_steps=6000):
         env.tid[s.spawn(f"a{i}", api(i)).name] = f"a{i}"
     env.tid[s.spawn("m", main).name] = "m"
     saved_yar = ds.YIELD_AFTER_RELEASE
-    ds.YIELD_AFTER_RELEASE = True        # also pre-empt right after a lock is released (state updated outside the lock)
+    ds.YIELD_AFTER_RELEASE = RELEASE_YIELD        # also pre-empt right after a lock is released (state updated outside the lock)
     try:
         s.run()
     finally:
@@ -828,7 +829,7 @@ def flush_lockstep(res, batch):
 
 
 def replay_generic(ctx, obj, judges):
-    case = obj.get("case", obj)
+    case = obj.get("case") or (obj.get("first_disagreement") or {}).get("case") or obj
     s = run_case(case)
     for i, e in enumerate(s.events):
         print(i, e)
